@@ -101,10 +101,18 @@ def _native_file_text(file_path):
 file_text = uf("disk_file_text", [Str], Str, concrete=_native_file_text)
 
 
+def text_cache_coherent(cache, file_path):
+    """Invariant of the memo cache (dict[str, str] filled only by _get_file_content): an entry is the file's text."""
+    return file_path not in cache or cache[file_path] == file_text(file_path)
+
+
 @contract(ST + "IgnoreChecker._get_file_content", props=["C04"], types=dict(self=IgnoreCheckerT, file_path=Str), returns=Str,
           modifies=["self._file_content_cache"],
           assumed="reads the file from disk through a memo cache (I/O): the text is the uninterpreted disk_file_text(path)")
 class GetFileContent:
+    def requires(self, file_path):
+        return text_cache_coherent(self._file_content_cache, file_path)
+
     def value(file_path):
         return file_text(file_path)
 
@@ -112,6 +120,9 @@ class GetFileContent:
 @contract(ST + "IgnoreChecker._should_ignore", props=["C04"], types=dict(self=IgnoreCheckerT, violation=ViolationT, file_content=Str),
           returns=Bool, modifies=["self._file_content_cache", "self._ignore_parser._ignore_cache"])
 class StringlyShouldIgnore:
+    def requires(self, violation):
+        return text_cache_coherent(self._file_content_cache, violation.file_path)
+
     def value(self, violation, old):
         # exactly the shared filter, applied to the file's text on disk
         return suppressed(old.self._ignore_parser._ignore_cache, self._ignore_parser.project_root,
